@@ -94,14 +94,11 @@ Fixpoint bwalk (dem : bool) (n : node) (st : bst) {struct n} : bst * list site :
     let '(s1, a) := bwalk dem v st in
     let '(s2, b) := bwalk dem t s1 in (s2, a ++ b)
   | SDelete ts _ =>
-    (fix dels (l : list node) (s : bst) : bst * list site :=
-       match l with
-       | [] => (s, [])
-       | EName id c p :: r =>
-         let here := mk_site id p s false in
-         let '(s2, b) := dels r (unbind id s) in (s2, here ++ b)
-       | x :: r => let '(s1, a) := bwalk dem x s in let '(s2, b) := dels r s1 in (s2, a ++ b)
-       end) ts st
+    (* reads first (a plain `del x` reads nothing but is a site of x), then every plain name in the
+       (possibly nested) target list is unbound *)
+    let '(s1, a) := walks dem ts st in
+    (fold_left (fun s x => unbind x s)
+               (flat_map (fold_nodes (fun m => match m with EName id Del _ => [id] | _ => [] end)) ts) s1, a)
   | SFor t it b o _ =>
     let '(s1, x) := bwalk dem it st in
     let '(s2, y) := bwalk dem t s1 in
